@@ -625,9 +625,12 @@ func (h *httpServerHandler) handleGet(ctx context.Context, w http.ResponseWriter
 	// Wait for connection to close
 	<-connCtx.Done()
 
-	// Clean up connection
+	// Clean up connection. Only remove the entry if it is still this connection:
+	// a newer GET stream for the same session may have replaced it already.
 	h.getSSEConnectionsLock.Lock()
-	delete(h.getSSEConnections, session.GetID())
+	if current, ok := h.getSSEConnections[session.GetID()]; ok && current == conn {
+		delete(h.getSSEConnections, session.GetID())
+	}
 	h.getSSEConnectionsLock.Unlock()
 	h.logger.Infof("GET SSE connection closed, session ID: %s", session.GetID())
 }
